@@ -50,6 +50,69 @@ def run(ctx, obs):
     sib_covariance(ctx, obs)
     rng_discipline(ctx, obs)
     ceilings_same_sample(ctx, obs)
+    ceiling_buffer_layout(ctx, obs)
+
+
+def ceiling_buffer_layout(ctx, obs, rule='AXIS'):
+    """The noise-ceiling buffers are (bound, resample[, cv repetition ...]); a (lower, upper) pair returned by the ceiling routines
+    is stored along the BOUND axis.  Axis roles (rules/axis.py) with sizes 2 -> K (bounds), N -> S, n_cv -> V: a store that lets
+    numpy broadcast the pair along another axis (the pair landing in the cv-repetition axis whenever that happens to have length
+    two) is a definite role clash."""
+    from ..rules.axis import AxisEval, Contract
+    NCq = 'inference.noise_ceiling.'
+    contracts = {NCq + 'cv_noise_ceiling': Contract({}, ('K',)), NCq + 'boot_noise_ceiling': Contract({}, ('K',))}
+    n = 0
+    for fn in EVAL_FUNCS:
+        q = EV + fn
+        f = ctx.prog.func(q)
+        ev = AxisEval(ctx, q, contracts, size_roles={2: 'K', 'N': 'S', 'n_cv': 'V'})
+        for s_ in ast.walk(f.node):
+            if not (isinstance(s_, ast.Assign) and isinstance(s_.targets[0], ast.Subscript)):
+                continue
+            t = s_.targets[0]
+            ar = ev.roles(t.value)
+            if ar is None or 'K' not in ar:
+                continue
+            tr = ev._subscript(ast.Subscript(value=t.value, slice=t.slice, ctx=ast.Load(), lineno=t.lineno, col_offset=t.col_offset), 0)
+            if tr is None:
+                # loop counters (targets of a `for`) and integer literals select one position of their axis
+                loop_vars = {n.id for l in ast.walk(f.node) if isinstance(l, ast.For) for n in ast.walk(l.target) if isinstance(n, ast.Name)}
+                items = list(t.slice.elts) if isinstance(t.slice, ast.Tuple) else [t.slice]
+                out, ok_ = [], len(items) <= len(ar)
+                for i, it in enumerate(items):
+                    if not ok_:
+                        break
+                    if isinstance(it, ast.Slice) and it.lower is None and it.upper is None:
+                        out.append(ar[i])
+                    elif (isinstance(it, ast.Name) and it.id in loop_vars) or (isinstance(it, ast.Constant) and isinstance(it.value, int)):
+                        pass
+                    else:
+                        ok_ = False
+                tr = tuple(out) + tuple(ar[len(items):]) if ok_ else None
+            vr = ev.roles(s_.value)
+            if tr is None or vr is None or 'K' not in vr:
+                continue
+            n += 1
+            con = 'a (lower, upper) ceiling pair is stored along the bound axis of the buffer'
+            # numpy aligns trailing axes
+            k = len(tr) - len(vr)
+            aligned = list(zip(tr[k:], vr)) if k >= 0 else []
+            clash = [(a, b) for a, b in aligned if a not in ('?', '1') and b not in ('?', '1') and a != b]
+            if k < 0:
+                obs.unk(rule, q, con, f'`{norm(s_)[:70]}`: value has more axes than the target', where(ctx.prog, f, s_))
+            elif clash:
+                obs.bad(rule, q, con, f'`{norm(s_)[:70]}`: target axes {tr}, value axes {vr} - broadcasting puts the pair along axis '
+                        f'{clash[0][0]} (it only fits when that axis has length two, and then both bounds receive [lower, upper])',
+                        where(ctx.prog, f, s_))
+            else:
+                obs.ok(rule, q, con, f'{tr} <- {vr}', where(ctx.prog, f, s_))
+    if n == 0:
+        obs.unk(rule, EV + 'eval_dual_bootstrap_random', 'ceiling pairs stored in the buffer', 'no store of a ceiling pair recognised')
+    # the arrays that are stacked for the covariance across resamples have one layout: (models or bounds) x resamples
+    for fn in EVAL_FUNCS:
+        q = EV + fn
+        ev = AxisEval(ctx, q, contracts, size_roles={2: 'K', 'N': 'S', 'n_cv': 'V'})
+        ev.check_function(obs, rule, None)
 
 
 # ----------------------------------------------------------------------------------------------------------
